@@ -48,7 +48,7 @@ fn arr32(v: &[u8]) -> [u8; 32] { let mut a = [0u8; 32]; a.copy_from_slice(v); a 
 
 pub fn run(ctx: &mut Ctx) {
     let mut rng = ctx.rng("corr");
-    let n_sessions = if ctx.quick() { 3 } else { 20 };
+    let n_sessions = if ctx.quick() { 10 } else { 80 };
     for k in 0..n_sessions {
         let (u, p) = (rand_cred(&mut rng, 1 + (k * 5) % 16), rand_cred(&mut rng, 16 - (k * 3) % 16));
         let tape = rng.bytes(112);
